@@ -78,6 +78,8 @@ impl Scenario for C06Scenario {
                 "accepted-row-missing"
             } else if have.len() > want.len() {
                 "row-stored-twice"
+            } else if have.len() < want.len() {
+                "accepted-copy-of-identical-row-missing"
             } else {
                 "row-value-changed"
             };
@@ -309,6 +311,10 @@ pub fn run(tier: &str) -> i32 {
         (Params { name: "2 writers x 2 writes, alternating schemas, 1 tick".into(), ..base.clone() }, Cost { preempt: 2, ..Cost::ZERO }),
         (Params { name: "2 writers x 2 writes, one schema, threshold 3".into(), writers: vec![vec![(1, 0), (3, 0)], vec![(2, 0), (4, 0)]], flush_row_count: 3, ..base.clone() }, Cost { preempt: 2, ..Cost::ZERO }),
     ];
+    // byte-identical rows written more than once (a client re-sending a sample, two agents reporting the same
+    // heartbeat): every accepted copy must be stored
+    plans.push((Params { name: "identical rows, every write flushes".into(), writers: vec![vec![(1, 0), (1, 0)], vec![(1, 0), (2, 0)]], flush_row_count: 1, ticks: 0, ..base.clone() }, Cost { preempt: 1, ..Cost::ZERO }));
+    plans.push((Params { name: "identical rows, threshold 2, 1 tick".into(), writers: vec![vec![(1, 0), (1, 0), (1, 0)], vec![(1, 0)]], flush_row_count: 2, ticks: 1, ..base.clone() }, Cost { preempt: 1, ..Cost::ZERO }));
     if t {
         plans.push((Params { name: "3 writers, alternating schemas, 2 ticks".into(), writers: vec![vec![(1, 0), (4, 1)], vec![(2, 1), (5, 0)], vec![(3, 0)]], ticks: 2, ..base.clone() }, Cost { preempt: 3, ..Cost::ZERO }));
         plans.push((Params { name: "2 writers x 2 writes, alternating schemas, 3 preemptions".into(), ..base.clone() }, Cost { preempt: 3, ..Cost::ZERO }));
